@@ -45,3 +45,53 @@ Print Assumptions C09_remove_unused_fwd.
 Theorem C09_remove_unused_sound : forall (sym_lt : sym -> sym -> Prop) (ins outs : list pred) (st st' : ustate) (P : program), unused_fragment P = true -> analyze_usage ins outs st P = Ok st' -> heads_defined (dead_of (used st')) P -> forall (IN : pred -> Prop) (OUT : gatom -> Prop), (forall p : pred, IN p -> In p ins) -> (forall a : gatom, OUT a -> In (gpred a) outs \/ In (gpred a) (used st')) -> equiv_out sym_lt IN OUT P (remove_unused st' P).
 Proof. exact (@remove_unused_sound). Qed.
 Print Assumptions C09_remove_unused_sound.
+
+From NGO Require Import Sem.Sym Sem.Sat Sem.Cost Link.Equiv Link.UnusedProjectSem.
+
+Theorem C09_project_position_sound : forall (sym_lt : Ast.sym -> Ast.sym -> Prop) (pn : string) (m : list bool) (qn : string), (qn, kcount m) <> (pn, Datatypes.length m) -> forall P : Ast.program, ok_prog pn m qn P = true -> forall I : list gatom, facts_over (fun r : string * nat => K pn m qn r = true) I -> (forall T : interp, stable sym_lt P I T -> stable sym_lt (tr_prog pn m qn P) I (prj pn m qn T)) /\ (forall T' : interp, stable sym_lt (tr_prog pn m qn P) I T' -> exists T : interp, stable sym_lt P I T /\ same (prj pn m qn T) T') /\ (forall T1 T2 : interp, stable sym_lt P I T1 -> stable sym_lt P I T2 -> same (prj pn m qn T1) (prj pn m qn T2) -> same T1 T2).
+Proof. exact (@UnusedProjectSem.project_position_sound). Qed.
+Print Assumptions C09_project_position_sound.
+
+Theorem C09_project_position_equiv_out : forall (sym_lt : Ast.sym -> Ast.sym -> Prop) (pn : string) (m : list bool) (qn : string), (qn, kcount m) <> (pn, Datatypes.length m) -> forall (P : Ast.program) (IN : Ast.pred -> Prop) (OUT : gatom -> Prop), ok_prog pn m qn P = true -> (forall r : Ast.pred, IN r -> K pn m qn r = true) -> (forall a : gatom, OUT a -> K pn m qn (InlineSem.gpred a) = true) -> equiv_out sym_lt IN OUT P (tr_prog pn m qn P).
+Proof. exact (@UnusedProjectSem.project_position_equiv_out). Qed.
+Print Assumptions C09_project_position_equiv_out.
+
+Theorem C09_project_position_equiv_cost : forall (sym_lt : Ast.sym -> Ast.sym -> Prop) (pn : string) (m : list bool) (qn : string), (qn, kcount m) <> (pn, Datatypes.length m) -> forall (P : Ast.program) (IN : Ast.pred -> Prop) (OUT : gatom -> Prop), ok_prog pn m qn P = true -> (forall r : Ast.pred, IN r -> K pn m qn r = true) -> (forall a : gatom, OUT a -> K pn m qn (InlineSem.gpred a) = true) -> equiv_cost sym_lt IN OUT P (tr_prog pn m qn P).
+Proof. exact (@UnusedProjectSem.project_position_equiv_cost). Qed.
+Print Assumptions C09_project_position_equiv_cost.
+
+Theorem C09_project_negated_sound : forall (sym_lt : Ast.sym -> Ast.sym -> Prop) (pn : string) (m : list bool) (qn rn_ : string) (xs : list string) (l0 : nat), (qn, kcount m) <> (pn, Datatypes.length m) -> Datatypes.length xs = Datatypes.length m -> NoDup (sel m xs) -> rn_ <> qn -> K pn m qn (rn_, kcount m) = true -> forall P : list Ast.stmt, ok_prog pn m qn (Dproj pn m rn_ xs l0 :: P) = true -> InlineSem.heads_in (InlineSem.notp (rn_, Datatypes.length (sel m xs))) (tr_prog pn m qn P) = true -> InlineSem.prog_in (InlineSem.notp (rn_, Datatypes.length (sel m xs))) (rn_prog m qn rn_ xs (tr_prog pn m qn P)) = true -> forallb (mstmt rn_ (sel m xs)) (tr_prog pn m qn P) = true -> forall I : list gatom, facts_over (fun r : string * nat => K pn m qn r = true /\ r <> (rn_, kcount m)) I -> (forall T : interp, stable sym_lt (Dproj pn m rn_ xs l0 :: P) I T -> stable sym_lt (rn_prog m qn rn_ xs (tr_prog pn m qn P)) I (restr (nonr m rn_ xs) (prj pn m qn T))) /\ (forall T2 : interp, stable sym_lt (rn_prog m qn rn_ xs (tr_prog pn m qn P)) I T2 -> exists T : interp, stable sym_lt (Dproj pn m rn_ xs l0 :: P) I T /\ same (restr (nonr m rn_ xs) (prj pn m qn T)) T2) /\ (forall T1 T2 : interp, stable sym_lt (Dproj pn m rn_ xs l0 :: P) I T1 -> stable sym_lt (Dproj pn m rn_ xs l0 :: P) I T2 -> same (restr (nonr m rn_ xs) (prj pn m qn T1)) (restr (nonr m rn_ xs) (prj pn m qn T2)) -> same T1 T2).
+Proof. exact (@UnusedProjectSem.project_negated_sound). Qed.
+Print Assumptions C09_project_negated_sound.
+
+Theorem C09_copy_rule_shortcut_sound : forall (sym_lt : Ast.sym -> Ast.sym -> Prop) (an bn : string) (xs : list string) (l0 : nat), an <> bn -> NoDup xs -> forall P1 : Ast.program, InlineSem.heads_in (InlineSem.notp (an, Datatypes.length xs)) P1 = true -> InlineSem.prog_in (InlineSem.notp (an, Datatypes.length xs)) (map (rn_stmt an bn xs) P1) = true -> forallb (mstmt an xs) P1 = true -> cons_ext sym_lt (fun p : string * nat => p <> (an, Datatypes.length xs)) (InlineSem.nonq an xs) (map (rn_stmt an bn xs) P1) (Dcopy an bn xs l0 :: P1).
+Proof. exact (@UnusedProjectSem.copy_rule_shortcut_sound). Qed.
+Print Assumptions C09_copy_rule_shortcut_sound.
+
+Theorem C09_read_position_refuted : forall sym_lt : Ast.sym -> Ast.sym -> Prop, let OUT := fun a : gatom => InlineSem.gpred a = ("q", 1) in ok_prog "p" (true :: false :: nil) "p'" Refutations.P1 = false /\ stable sym_lt Refutations.P1 Refutations.I1 (Refutations.fin Refutations.l1) /\ ~ stable sym_lt (tr_prog "p" (true :: false :: nil) "p'" Refutations.P1) Refutations.I1 (prj "p" (true :: false :: nil) "p'" (Refutations.fin Refutations.l1)) /\ ~ equiv_out sym_lt (fun r : string * nat => K "p" (true :: false :: nil) "p'" r = true) OUT Refutations.P1 (tr_prog "p" (true :: false :: nil) "p'" Refutations.P1).
+Proof. exact (@UnusedProjectSem.Refutations.read_position_refuted). Qed.
+Print Assumptions C09_read_position_refuted.
+
+Theorem C09_negated_head_refuted : forall sym_lt : Ast.sym -> Ast.sym -> Prop, UnusedExecute.execute Findings.exN (("d", 2) :: ("e", 2) :: nil) (("q", 1) :: nil) Findings.exN = Ast.Ok Findings.exN_res /\ facts_over (fun r : string * nat => r = ("d", 2) \/ r = ("e", 2)) Findings.IN_ /\ stable sym_lt Findings.exN Findings.IN_ (Refutations.fin Findings.lN) /\ (forall T' : interp, ~ stable sym_lt Findings.exN_res Findings.IN_ T') /\ ~ equiv_out sym_lt (fun r : string * nat => r = ("d", 2) \/ r = ("e", 2)) (fun a : gatom => InlineSem.gpred a = ("q", 1)) Findings.exN Findings.exN_res.
+Proof. exact (@UnusedProjectSem.Findings.negated_head_refuted). Qed.
+Print Assumptions C09_negated_head_refuted.
+
+Theorem C09_copy_chain_refuted : forall sym_lt : Ast.sym -> Ast.sym -> Prop, UnusedExecute.execute Findings.exCh (("c", 1) :: ("e", 1) :: nil) (("d", 1) :: nil) Findings.exCh = Ast.Ok Findings.exCh_res /\ stable sym_lt Findings.exCh Findings.ICh (Refutations.fin Findings.lCh) /\ (forall T' : interp, stable sym_lt Findings.exCh_res Findings.ICh T' -> ~ T' ("d", Refutations.c1 :: nil)) /\ ~ equiv_out sym_lt (fun r : string * nat => r = ("c", 1) \/ r = ("e", 1)) (fun a : gatom => InlineSem.gpred a = ("d", 1)) Findings.exCh Findings.exCh_res.
+Proof. exact (@UnusedProjectSem.Findings.copy_chain_refuted). Qed.
+Print Assumptions C09_copy_chain_refuted.
+
+Theorem C09_copy_rule_double_negation_refuted : forall sym_lt : Ast.sym -> Ast.sym -> Prop, stable sym_lt Findings.Pdn nil (Refutations.fin Findings.ldn) /\ Refutations.fin Findings.ldn ("ok", nil) /\ (forall T' : interp, stable sym_lt Findings.Pdn' nil T' -> ~ T' ("ok", nil)) /\ ~ equiv_out sym_lt (fun r : string * nat => r = ("given", 0)) (fun a : gatom => InlineSem.gpred a = ("ok", 0)) Findings.Pdn Findings.Pdn'.
+Proof. exact (@UnusedProjectSem.Findings.copy_rule_double_negation_refuted). Qed.
+Print Assumptions C09_copy_rule_double_negation_refuted.
+
+Theorem C09_choice_projection_many_to_one : forall sym_lt : Ast.sym -> Ast.sym -> Prop, stable sym_lt ChoiceExample.Pc ChoiceExample.Ic (Refutations.fin (ChoiceExample.lc Refutations.c1)) /\ stable sym_lt ChoiceExample.Pc ChoiceExample.Ic (Refutations.fin (ChoiceExample.lc Refutations.c2)) /\ ~ same (Refutations.fin (ChoiceExample.lc Refutations.c1)) (Refutations.fin (ChoiceExample.lc Refutations.c2)) /\ same (prj "p" (true :: false :: nil) "p'" (Refutations.fin (ChoiceExample.lc Refutations.c1))) (prj "p" (true :: false :: nil) "p'" (Refutations.fin (ChoiceExample.lc Refutations.c2))) /\ ok_prog "p" (true :: false :: nil) "p'" ChoiceExample.Pc = false.
+Proof. exact (@UnusedProjectSem.ChoiceExample.choice_projection_many_to_one). Qed.
+Print Assumptions C09_choice_projection_many_to_one.
+
+Theorem C09_exA_pass_sound : forall sym_lt : Ast.sym -> Ast.sym -> Prop, UnusedExecute.execute ModelExamples.exA (("d", 2) :: nil) (("q", 1) :: nil) ModelExamples.exA = Ast.Ok ModelExamples.exA_res /\ (forall I : list gatom, facts_over (fun r : string * nat => ModelExamples.KA r = true) I -> (forall T : interp, stable sym_lt ModelExamples.exA I T -> stable sym_lt ModelExamples.exA_res I (ModelExamples.prjA T)) /\ (forall T' : interp, stable sym_lt ModelExamples.exA_res I T' -> exists T : interp, stable sym_lt ModelExamples.exA I T /\ same (ModelExamples.prjA T) T') /\ (forall T1 T2 : interp, stable sym_lt ModelExamples.exA I T1 -> stable sym_lt ModelExamples.exA I T2 -> same (ModelExamples.prjA T1) (ModelExamples.prjA T2) -> same T1 T2)).
+Proof. exact (@UnusedProjectSem.ModelExamples.exA_pass_sound). Qed.
+Print Assumptions C09_exA_pass_sound.
+
+Theorem C09_exM_pass_sound : forall sym_lt : Ast.sym -> Ast.sym -> Prop, UnusedExecute.execute ModelExamples.exM (("e", 2) :: ("f", 1) :: nil) nil ModelExamples.exM = Ast.Ok ModelExamples.exM_res /\ equiv_cost sym_lt (fun r : string * nat => r = ("e", 2) \/ r = ("f", 1)) (fun a : gatom => InlineSem.gpred a = ("e", 2) \/ InlineSem.gpred a = ("f", 1)) ModelExamples.exM ModelExamples.exM_res.
+Proof. exact (@UnusedProjectSem.ModelExamples.exM_pass_sound). Qed.
+Print Assumptions C09_exM_pass_sound.
